@@ -52,6 +52,16 @@ type Scenario struct {
 	WaitSteps   int    `json:"wait_steps,omitempty"`
 	Action      string `json:"action"` // close | cancel | none
 	CloseBefore bool   `json:"close_before,omitempty"`
+	// BufferedEnd: a scripted end of stream (err, eof, stop) was already
+	// received when the context is cancelled, so Recv reports it instead of
+	// the cancellation (both orders happen with a gRPC stream).
+	BufferedEnd bool `json:"buffered_end,omitempty"`
+	// IgnoreCtx: the scripted transport does not look at the context (like the
+	// repository's own fake client): a stream can be opened and read after
+	// the context was cancelled; only Impl.Close stops it. Generated only with
+	// scripts that never block, because nothing would ever end a blocked
+	// stream of such a transport that was opened after Close (DESIGN 5.1).
+	IgnoreCtx bool `json:"ignore_ctx,omitempty"`
 }
 
 type H struct{}
@@ -103,6 +113,17 @@ func (H) Generate(rng *simrt.Rand, prop, tier string) (any, simrt.Config) {
 		sc.WaitNs = int64(rng.Intn(40)) * sc.MaxNs / 2
 	}
 	sc.Poll = !sc.Reconnect && rng.Chance(0.3)
+	sc.BufferedEnd = rng.Chance(0.5)
+	if sc.Action == "close" && rng.Chance(0.3) {
+		sc.IgnoreCtx = true
+		for _, as := range sc.Types {
+			for i := range as {
+				if last := &as[i].Items[len(as[i].Items)-1]; last.K == "block" {
+					last.K = "err"
+				}
+			}
+		}
+	}
 	return sc, cfg
 }
 
@@ -182,6 +203,9 @@ type world struct {
 	x   *common.Exec
 	evs [][]ev
 	n   []atomic.Int64 // attempts per type
+	// the context the client library handed to the most recent NewImpl: the
+	// reconnecting client's own (cancelled by Close / by the caller's cancel)
+	lastCtx atomic.Value
 }
 
 func tid() int {
@@ -213,7 +237,7 @@ type impl struct {
 func (i *impl) Subscribe(ctx context.Context, q client.Query) error {
 	i.w.rec("subscribe", i.typ, i.att, "")
 	i.h = q.NotificationHandler
-	if err := ctx.Err(); err != nil {
+	if err := ctx.Err(); err != nil && !i.w.sc.IgnoreCtx {
 		return err // a gRPC stream cannot be opened on a cancelled context
 	}
 	if i.a.SubErr {
@@ -223,11 +247,20 @@ func (i *impl) Subscribe(ctx context.Context, q client.Query) error {
 }
 
 func (i *impl) Recv() error {
-	if err := i.ctx.Err(); err != nil {
-		return err // as a gRPC stream does
+	buffered := false
+	if i.w.sc.BufferedEnd && i.pos < len(i.a.Items) {
+		switch i.a.Items[i.pos].K {
+		case "err", "eof", "stop":
+			buffered = true
+		}
 	}
-	if i.closing.Load() {
-		return errors.New("transport is closing")
+	if !buffered {
+		if err := i.ctx.Err(); err != nil && !i.w.sc.IgnoreCtx {
+			return err // as a gRPC stream does
+		}
+		if i.closing.Load() {
+			return errors.New("transport is closing")
+		}
 	}
 	if i.pos >= len(i.a.Items) {
 		return io.EOF
@@ -315,6 +348,7 @@ func (H) Execute(x *common.Exec, s any) {
 			att := int(w.n[ti].Add(1)) - 1
 			a := sc.Types[ti][att%len(sc.Types[ti])]
 			w.rec("newimpl", ti, att, "")
+			w.lastCtx.Store(&ctx)
 			if a.ConnectNs > 0 {
 				simrt.Sleep(time.Duration(a.ConnectNs))
 			}
@@ -353,7 +387,15 @@ func (H) Execute(x *common.Exec, s any) {
 	}
 	var c client.Client = base
 	if sc.Reconnect {
-		c = client.Reconnect(base, func() { w.rec("disconnect", -1, -1, "") }, func() { w.rec("reset", -1, -1, "") })
+		c = client.Reconnect(base, func() {
+			// The callback runs right before the client decides whether to
+			// retry: note whether its context is already cancelled.
+			id := ""
+			if p, _ := w.lastCtx.Load().(*context.Context); p != nil && (*p).Err() != nil {
+				id = "ctx-cancelled"
+			}
+			w.rec("disconnect", -1, -1, id)
+		}, func() { w.rec("reset", -1, -1, "") })
 	}
 	ctx, cancel := context.WithCancel(context.Background())
 	defer cancel()
@@ -505,9 +547,17 @@ func (H) Execute(x *common.Exec, s any) {
 			}
 		}
 		nDisc := 0
+		cancelledAt := int64(0)
 		for _, e := range evs {
 			if e.kind == "disconnect" {
 				nDisc++
+				if e.id == "ctx-cancelled" && cancelledAt == 0 {
+					cancelledAt = e.stamp
+				}
+			}
+			if e.kind == "reset" && cancelledAt != 0 {
+				x.Violate("C18/retry-after-close", "the attempt ended (disconnect callback at %d) with the subscription context already cancelled by %s, yet the client backed off and retried (reset callback at %d)\n%s", cancelledAt, sc.Action, e.stamp, dump())
+				return
 			}
 		}
 		if subDone && nDisc == 0 {
@@ -563,7 +613,17 @@ func (H) Execute(x *common.Exec, s any) {
 		return
 	}
 	// after Close returned: at most the notifications of one further received message
-	if closeDone && sc.Action == "close" && (sc.Reconnect || closeErr != client.ErrClientInit) {
+	// (A transport that ignores the context can only be stopped through
+	// Impl.Close: a Close that found no attempt under way has nothing to stop,
+	// so with such a transport the clause is judged for a Close invoked after
+	// the first attempt began.)
+	begun := !sc.IgnoreCtx
+	for _, e := range evs {
+		if e.kind == "newimpl" && e.stamp < closeInv {
+			begun = true
+		}
+	}
+	if closeDone && begun && sc.Action == "close" && (sc.Reconnect || closeErr != client.ErrClientInit) {
 		x.Oblige(1)
 		msgs := map[string]bool{}
 		for _, e := range evs {
